@@ -234,49 +234,81 @@ def remove_rule(F, R, rule='B.C12.remove'):
         prs = [p for p in explore(rb) if p.end == 'return']
         ok = True
         why = ''
-        seen_persist = set()
         forms = set()
+        import itertools
+        import re as _re
+
+        def atom(desc):
+            """(atom, polarity of the described value) or None"""
+            d = desc
+            neg = 0
+            while d.startswith('Not(') and d.endswith(')'):
+                d = d[4:-1]
+                neg += 1
+            pol = (neg % 2 == 0)
+            if 'Iterator::any' in d:
+                forms.add('any')
+                return 'child_alive', pol
+            if 'Iterator::all' in d:
+                forms.add('all')
+                return 'child_alive', not pol
+            if d.endswith('persist_until_sounds_finish'):
+                return 'persist', pol
+            if 'is_marked_for_removal' in d:
+                return 'marked', pol
+            for coll, nm in (('sub_tracks', 'child_pending'), ('sounds', 'sound_pending')):
+                if ('.' + coll) in d and ('new_resource_consumer' in d or 'has_pending(' in d):
+                    # has_pending(..) / !consumer.is_empty()
+                    return nm, (pol if 'has_pending(' in d else not pol)
+            if 'ResourceStorage::<T>::is_empty(' in d and '.sounds' in d:
+                return 'sounds_empty', pol
+            return None
+        ATOMS = ['child_pending', 'child_alive', 'persist', 'marked', 'sounds_empty', 'sound_pending']
+
+        def expected(a):
+            return (not a['child_pending']) and (not a['child_alive']) and a['marked'] and ((not a['persist']) or (a['sounds_empty'] and not a['sound_pending']))
+        paths = []
         for p in prs:
             dec = {}
+            unknown = []
             for bb, desc, lab in p.decisions:
-                if 'Iterator::any' in desc:
-                    dec['any'] = bool_label(lab)
-                    forms.add('any')
-                elif 'Iterator::all' in desc and bool_label(lab) is not None:
-                    # !all(removable) is the same test as any(!removable)
-                    dec['any'] = not bool_label(lab)
-                    forms.add('all')
-                elif desc.endswith('persist_until_sounds_finish'):
-                    dec['persist'] = bool_label(lab)
-                elif 'is_marked_for_removal' in desc:
-                    dec['marked'] = bool_label(lab)
-            ret = str(p.ret)
-            if dec.get('any') is True:
-                if ret != 'False':
-                    ok = False
-                    why = 'returns %s although a child track is not removable' % ret
-                continue
-            if 'any' not in dec:
-                ok = False
-                why = 'a path to return does not test the child tracks'
-                continue
-            seen_persist.add(dec.get('persist'))
-            if dec.get('persist') is True:
-                good = (ret == 'False' and dec.get('marked') is False) or \
-                       (ret.startswith('backend::resources::ResourceStorage::<T>::is_empty(') and '.sounds' in ret and dec.get('marked') is True)
-                if not good:
-                    ok = False
-                    why = 'persist branch returns %s with decisions %s' % (ret, dec)
-            elif dec.get('persist') is False:
-                if 'is_marked_for_removal' not in ret:
-                    ok = False
-                    why = 'non-persist branch returns %s, not is_marked_for_removal()' % ret
+                if desc in ('True', 'False'):
+                    continue        # the constant arm of a short-circuit, already decided by the explorer
+                at = atom(desc)
+                bl = bool_label(lab)
+                if at is None or bl is None:
+                    unknown.append(desc[:60])
+                    continue
+                dec[at[0]] = (bl == at[1])
+            r = str(p.ret)
+            if r in ('True', 'False'):
+                res = ('const', r == 'True')
             else:
+                at = atom(r)
+                res = ('atom', at) if at else ('?', r[:80])
+            paths.append((dec, res, unknown))
+            if unknown:
                 ok = False
-                why = 'a path does not test persist_until_sounds_finish'
-        if seen_persist != {True, False}:
-            ok = False
-            why = why or 'persist_until_sounds_finish is not branched on'
+                why = 'a path of should_be_removed branches on something the documented predicate does not mention: %s' % unknown[:2]
+            if res[0] == '?':
+                ok = False
+                why = 'should_be_removed returns %s' % res[1]
+        decided = set(k for dec, _, _ in paths for k in dec) | set(res[1][0] for _, res, _ in paths if res[0] == 'atom')
+        for vals in itertools.product([False, True], repeat=len(ATOMS)):
+            if not ok:
+                break
+            a = dict(zip(ATOMS, vals))
+            # a storage that holds nothing and has nothing queued - or not: the two atoms are independent inputs here
+            for dec, res, _ in paths:
+                if any(a[k] != v for k, v in dec.items()):
+                    continue
+                got = res[1] if res[0] == 'const' else (a[res[1][0]] == res[1][1])
+                if got != expected(a):
+                    ok = False
+                    why = ('with %s the predicate is %s; the documented one is %s (removed iff no child track is alive or still queued, the '
+                           'handle was dropped, and - for a persisting track - no sound is left or still queued)'
+                           % ({k: v for k, v in a.items() if k in decided or k in ('child_pending', 'sound_pending')}, got, expected(a)))
+                    break
         R.check(ok, rule, 'path-predicate', why, detail={'paths': len(prs)}, where=rb.file)
         ie = F.body('backend::resources::ResourceStorage::<T>::is_empty')
         if R.check(ie is not None, rule, 'anchor:is_empty', 'ResourceStorage::is_empty not found'):
